@@ -1,9 +1,9 @@
 package main
 
 import (
-	"go/token"
 	"fmt"
 	"go/constant"
+	"go/token"
 	"go/types"
 	"sort"
 	"strings"
@@ -586,7 +586,6 @@ func ruleChangeConsumer(c *Ctx, change *chanClass) {
 	}
 	c.Check(reload, "R19.5", "cmd/hidi.Manager.Run/reloads-configs-each-cycle", c.P.Pos(run.Pos()), "LoadDeviceConfigs is called inside the manager's outer loop", "LoadDeviceConfigs is not called again after a change")
 }
-
 
 func ruleNotifyIff(c *Ctx, worker *ssa.Function, change *chanClass, suffix string) {
 	pos := c.P.Pos(worker.Pos())
